@@ -237,8 +237,11 @@ namespace OP2Utility::Archive
 		clmFileWriter.Write(indexEntries);
 
 		// Copy files into the archive
+		// Note: Each reader is positioned at the start of its audio data. Copy only the data chunk,
+		// since the source file may contain further chunks after the audio data.
 		for (std::size_t i = 0; i < header.packedFilesCount; ++i) {
-			clmFileWriter.Write(*filesToPackReaders[i]);
+			auto audioData = filesToPackReaders[i]->Slice(indexEntries[i].dataLength);
+			clmFileWriter.Write(audioData);
 		}
 	}
 
